@@ -34,14 +34,32 @@ def kernel_queries(tier):
             qs.append(kq('kernel/div/%s-%s' % (KN[lk], KN[rk]), 'h_div', {'LK': lk, 'RK': rk}, backend='cvc5', timeout=300))
     # % : the three genuine findings apart, then the rest
     EX = ['C04-rem-zero', 'C04-rem-overflow', KF_NAT]
-    qs.append(kq('kernel/rem/any', 'h_rem', {'LK': 0, 'RK': 0}, kf_excl=EX, timeout=300))
+    for lk in (1, 2, 3):
+        for rk in (1, 2, 3):
+            qs.append(kq('kernel/rem/%s-%s' % (KN[lk], KN[rk]), 'h_rem', {'LK': lk, 'RK': rk}, kf_excl=EX, backend='cvc5', timeout=300))
     qs.append(kq('kernel/rem/kf-zero', 'h_rem', {'LK': 0, 'RK': 0}, kf_only='C04-rem-zero', timeout=300))
     qs.append(kq('kernel/rem/kf-overflow', 'h_rem', {'LK': 0, 'RK': 0}, kf_only='C04-rem-overflow', timeout=300))
-    qs.append(kq('kernel/rem/kf-natural', 'h_rem', {'LK': 0, 'RK': 0}, kf_only=KF_NAT, timeout=300))
+    qs.append(kq('kernel/rem/kf-natural', 'h_rem', {'LK': 0, 'RK': 0, 'REM_WIDE': 1}, kf_only=KF_NAT, timeout=300))
     for op in (9, 10):
-        qs.append(kq('kernel/%s/any' % OPN[op], 'h_bit', {'OPER': op, 'LK': 0, 'RK': 0}, timeout=300))
+        qs.append(kq('kernel/%s/int' % OPN[op], 'h_bit', {'OPER': op, 'LK': INTS, 'RK': INTS}, timeout=300))
+        for lk in (1, 2, 3):
+            for rk in (1, 2, 3):
+                if lk == 1 or rk == 1:
+                    qs.append(kq('kernel/%s/%s-%s' % (OPN[op], KN[lk], KN[rk]), 'h_bit', {'OPER': op, 'LK': lk, 'RK': rk}, backend='cvc5', timeout=300))
     for op in (1, 2, 3, 4, 5, 6, 7, 8):
         qs.append(kq('kernel/%s/any' % OPN[op], 'h_cmp', {'OPER': op, 'LK': 0, 'RK': 0}, kf_excl=[KF_NAT], timeout=300))
+    # ^ : small symbolic base (PB bits) and exponent (|e| <= PE_MAX) of every kind; 64-bit base with a fixed small exponent
+    PW = {'PowerOf': 6}
+    KP = 'C04-pow-neg-even-sign'
+    b = {'ref_pow': 17}
+    qs.append(kq('kernel/pow/int', 'h_pow', {'LK': INTS, 'RK': INTS, 'PB': 4, 'PE_MAX': 15}, kf_excl=[KP], bounds=b, rec_bounds=PW, timeout=300))
+    qs.append(kq('kernel/pow/kf-neg-even', 'h_pow', {'LK': INTS, 'RK': INTS, 'PB': 4, 'PE_MAX': 15}, kf_only=KP, bounds=b, rec_bounds=PW, timeout=300))
+    for lk in (1, 2, 3):
+        for rk in (1, 2, 3):
+            if lk == 1 or rk == 1:
+                qs.append(kq('kernel/pow/%s-%s' % (KN[lk], KN[rk]), 'h_pow', {'LK': lk, 'RK': rk, 'PB': 4, 'PE_MAX': 15}, kf_excl=[KP], bounds=b, rec_bounds=PW, backend='cvc5', timeout=300))
+    for e in (0, 1, 2, 3):
+        qs.append(kq('kernel/pow/wide/e%d' % e, 'h_pow', {'LK': INTS, 'RK': INTS, 'PB': 64, 'PE_MAX': 3, 'PE_FIX': e}, kf_excl=[KP], bounds={'ref_pow': 5}, rec_bounds=PW, timeout=300))
     return qs
 def queries(tier):
     return kernel_queries(tier)
